@@ -1,5 +1,5 @@
 SPECIFICATION Spec
 CONSTANTS Mem = {"a", "b", "c"}
-  Kinds = {"window", "priority", "idwindow", "dcinfo"}
+  Kinds = {"window", "priority", "idwindow", "dcinfo", "keys"}
   MaxOps = 14
 CHECK_DEADLOCK FALSE
